@@ -1,23 +1,32 @@
 """C12 - forward models act identically on every representation of their input.
 
 E3 configuration explorer.  A cell is (model kind x domain geometry x range geometry x size variant
-x value catalogue).  Inside a cell *every* point of the parameter basis, the origin and the generic
-catalogue points is pushed through the model in every input representation
+x value catalogue).  Inside a cell *every* point of the parameter basis, the origin, a small-integer
+generic point and the dyadic generic catalogue points is pushed through the model in every input
+representation
 
     parameter ndarray (forward / __call__ / keyword / @)      function values with is_par=False
-    CUQIarray(par) and CUQIarray(fun) carrying the model's domain geometry
-    Samples with 1, 2 and 3 columns (every point appears in each column count)
+    CUQIarray(par) and CUQIarray(fun) carrying the model's domain geometry (own object / equal copy)
+    CUQIarray carrying a different-but-compatible geometry: default geometry (CUQIarray(p), a prior
+        draw), Continuous1D on another grid (parameters), Continuous1D/2D on another grid holding
+        function values (is_par=False)
+    dtype facet: int64 (integer-valued points), float32, python list - as ndarray and as CUQIarray
+    Samples with 1, 2 and 3 columns (every point appears in each column count) x {own geometry float64 /
+        int64 / float32 / list of columns, default geometry, other-grid geometry}
 
-and compared with the harness-composed reference  fun2par_range( f( par2fun_domain(p) ) )  built from
-the dense reference geometry maps of checks/_c12_models.py; the wrapping of the output is checked
-(ndarray / CUQIarray with the range geometry and is_par=True / Samples with the range geometry).
-`gradient(direction, wrt)` is evaluated for all 4 x 4 representations of (direction, wrt), all basis
-directions + a generic one, and compared with J^T direction, J = Richardson Jacobian of the
-*reference* parameter-to-output map (or the call raises).  `model(dist)` must only rename.
+and compared with the harness-composed reference  fun2par_range( f( par2fun_domain(p) ) )  of the float64
+point, built from the dense reference geometry maps of checks/_c12_models.py; the wrapping of the output
+is checked (ndarray / CUQIarray with the range geometry and is_par=True / Samples with the range geometry).
+For linear models the same battery runs through `adjoint` (range -> domain, reference
+fun2par_domain(A^T par2fun_range(y))).  `gradient(direction, wrt)` is evaluated for all 4 x 4
+representations of (direction, wrt) plus 11 pairs of the geometry-carried/dtype facets, all basis
+directions + a generic one, and compared with J^T direction, J = Richardson Jacobian of the *reference*
+parameter-to-output map (or the call raises).  `model(dist)` must only rename.
 
 Signatures: a failing cell is re-explored with the domain (resp. range) geometry replaced by a plain
 one; a geometry facet is only kept in the signature when the failure disappears with the replacement
-(deterministic, cell-local facet minimisation), representations that all fail are collapsed.
+(deterministic, cell-local facet minimisation), representations that all fail are collapsed, and a
+representation of the geometry-carried/dtype facets is only named when its plain analogue passes.
 """
 import numpy as np
 from vfw.core import CellResult, close
@@ -27,32 +36,49 @@ from checks import _c12_models as M
 PROPERTY = "C12"
 RULE = ("cells = model kind x domain geometry kind x range geometry kind x size variant (+ '=dom' cells whose range "
         "geometry is an equal copy of the domain geometry) x value catalogue; inside a cell all basis points, the "
-        "origin and the generic points go through every input representation (par ndarray via forward/__call__/"
-        "keyword/@, function values with is_par=False, CUQIarray par/fun with the model's domain geometry, Samples "
-        "with 1..3 columns) and every (direction, wrt) representation pair of gradient with all basis directions; a "
-        "cell is non-trivial when at least one forward value was compared with the composed reference")
+        "origin, a small-integer generic point and the dyadic generic points go through every input representation: "
+        "par ndarray via forward/__call__/keyword/@, function values with is_par=False, CUQIarray par/fun with the "
+        "model's domain geometry, CUQIarray with a different-but-compatible geometry (default geometry, Continuous1D on "
+        "another grid, other-grid function values), dtype facet (int64 / float32 / list as ndarray and CUQIarray), "
+        "Samples with 1..3 columns x {own geometry float64/int64/float32/list of columns, default geometry, other-grid "
+        "geometry}; linear models: the same battery through adjoint; every (direction, wrt) representation pair of "
+        "gradient (16 + 11 pairs of the geometry-carried/dtype facets) with all basis directions; a cell is non-trivial "
+        "when at least one forward value was compared with the composed reference")
 BOUND = {
     "quick": "models {Model+jacobian, Model+gradient, Model, LinearModel matrix/callables/inferred, PDEModel Poisson "
              "(plain, +jacobian_wrt_parameter, +gradient_wrt_parameter), Heat forward/backward Euler} x 15 domain "
              "geometry kinds {default 1-D/2-D, Continuous1D/2D, Image2D C/F/visual_only, Discrete, MappedGeometry "
              "(+gradient), KLExpansion (+gradient), StepExpansion (+gradient), user class with gradient} x (11 range "
              "geometry kinds + equal copy of the domain), one size per kind (par dims 2..6, function dims 3..7; the "
-             "range KL/Step grids share their 4 nodes with the plain 1-D domain), points = basis + origin + 1 generic, "
-             "gradient at 2 linearisation points x 16 representation pairs x (range_dim + 1) directions, Samples "
-             "with 1..3 columns; lin_mat only with 1-D function spaces",
+             "range KL/Step grids share their 4 nodes with the plain 1-D domain), points = basis + origin + 1 integer "
+             "generic + 1 dyadic generic, 16 single-vector representations per point (int64 ones at integer-valued "
+             "points), Samples: own-geometry float64 with 1..3 columns, the 5 dtype/geometry variants with all points "
+             "in 3-column and the first point in 1-column collections; adjoint of the 3 linear model kinds with the same "
+             "battery on basis + origin + integer + dyadic points of the range; gradient at 2 linearisation points x 16 "
+             "representation pairs x (range_dim + 1) directions, + 11 geometry-carried/dtype pairs at the generic "
+             "linearisation point (integer pair at the integer-valued one); lin_mat only with 1-D function spaces",
     "thorough": "same product with 2 sizes per domain and per range kind (4 combinations), points = basis + origin + "
-                "3 generic, gradient linearised at every point",
+                "integer generic + 3 dyadic generic, every Samples variant with 1..3 columns, gradient linearised at "
+                "every point (extra pairs at the last generic point, integer pair at every integer-valued point)",
 }
 ASSUMPTIONS = [
     "the reference geometry maps (index arithmetic for Image2D/Continuous2D, the documented sine expansion for "
     "KLExpansion, integer interval membership for StepExpansion) are compared with the library geometry in every "
     "cell; a disagreement is reported under its own signature and the cell is not judged further",
-    "arrays / sample collections carrying a geometry different from the model's domain geometry are outside the "
-    "statement and are not exercised; CUQIarrays and Samples carry the model's own geometry object",
+    "arrays carrying a geometry different from the model's domain geometry are exercised only with identity-like "
+    "geometries of matching size (default geometry, Continuous1D/2D on another grid), where the numbers in the array "
+    "are unambiguous; they are read as parameters of the model's domain (is_par=True) or as function values when the "
+    "call says is_par=False; other foreign geometries (mapped, expansions) are outside the statement and not exercised",
+    "float32 inputs are judged with relative tolerance 1e-4 (user code may legitimately compute in the precision it is "
+    "given); python lists (vector, or list of columns in a sample collection) may be refused, a returned value must be "
+    "the reference value; integer inputs must give the float64 result",
     "user supplied derivative information follows the documented conventions (gradient callables work on function "
     "values, a Jacobian has shape (range_dim, domain_dim)); refusal of gradient (any exception) is always accepted",
-    "output shapes are compared up to squeezing; the wrapping rule is judged for forward only (the statement is "
-    "silent about the wrapping of gradients)",
+    "output shapes are compared up to squeezing; the wrapping rule is judged for forward and adjoint only (the statement "
+    "is silent about the wrapping of gradients; there only 'the geometry object carried by an array-typed direction "
+    "does not change the type of the result' is demanded)",
+    "the adjoint reference uses the dense reference fun2par of the domain geometry on arbitrary function vectors "
+    "(inverse of the full KL basis truncated to the modes, interval means for StepExpansion)",
     "numpy.linalg.solve / inv on dimensions <= 9 is the trusted base of the reference",
 ]
 
@@ -60,6 +86,20 @@ EQ_RANGE = "=dom"
 CUQI_REPS = ("cuqi-par", "cuqi-fun", "cuqi-fun-flag")
 PAR_REPS = ("par", "par-call", "par-keyword")
 GRAD_REPS = ("par", "fun", "cuqi-par", "cuqi-fun")
+FOREIGN_PAR_REPS = ("cuqi-par-default", "cuqi-par-othergrid")
+FOREIGN_REPS = FOREIGN_PAR_REPS + ("cuqi-fun-othergrid",)
+SAMPLE_VARIANTS = [("samples", "own", "float64"), ("samples-int", "own", "int"), ("samples-float32", "own", "float32"),
+                   ("samples-list", "own", "list"), ("samples-defaultgeom", "default", "float64"),
+                   ("samples-othergrid", "other", "float64")]
+F32_TOL = 1e-4
+REP_BASE = {"cuqi-par-default": "cuqi-par", "cuqi-par-othergrid": "cuqi-par", "cuqi-fun-othergrid": "cuqi-fun-flag",
+            "par-int": "par", "par-float32": "par", "par-list": "par", "cuqi-par-int": "cuqi-par",
+            "cuqi-par-float32": "cuqi-par", "samples-int": "samples", "samples-float32": "samples",
+            "samples-list": "samples", "samples-defaultgeom": "samples", "samples-othergrid": "samples"}
+# complete groups of failing representations are reported under one label (first matching group wins)
+REP_GROUPS = [("cuqi-*", CUQI_REPS), ("cuqi-fun*", CUQI_REPS[1:]), ("par-*", PAR_REPS),
+              ("cuqi-othergeom-*", FOREIGN_REPS), ("cuqi-par-othergeom", FOREIGN_PAR_REPS),
+              ("samples-othergeom", ("samples-defaultgeom", "samples-othergrid"))]
 
 
 def cells(tier, seed):
@@ -130,6 +170,177 @@ def _check_geometry_reference(res, raw, g, lib, k):
     return ok
 
 
+def _is_int(p):
+    return bool(np.all(np.asarray(p) == np.round(p)))
+
+
+class _Runner:
+    """Runs one application (forward: domain -> range, adjoint: range -> domain) on the real code and judges value
+    and wrapping of the output.  Raw failure operations are `<op>`, `<op>-wrapping`, `<op>-raises`."""
+
+    def __init__(self, res, raw, op, out_geometry, compared):
+        self.res, self.raw, self.op, self.lgo, self.compared = res, raw, op, out_geometry, compared
+
+    def judge(self, rep, out, expect, pname, want, tol):
+        from cuqi.array import CUQIarray
+        from cuqi.samples import Samples
+        res, raw, op = self.res, self.raw, self.op
+        res.evaluations += 1
+        if want == "ndarray" and isinstance(out, (CUQIarray, Samples)):
+            raw.add(op + "-wrapping", "type", "plain array in, %s out" % type(out).__name__, rep=rep, point=pname)
+        if want == "CUQIarray":
+            if type(out) is not CUQIarray:
+                raw.add(op + "-wrapping", "type", "CUQIarray in, %s out" % type(out).__name__, rep=rep, point=pname)
+            else:
+                if not _same_geometry(out.geometry, self.lgo):
+                    raw.add(op + "-wrapping", "geometry", "output carries %r instead of the geometry of the output space %r"
+                            % (out.geometry, self.lgo), rep=rep, point=pname)
+                if out.is_par is not True:
+                    raw.add(op + "-wrapping", "is_par", "output not flagged as parameters", rep=rep, point=pname)
+        try:
+            arr = _flat(out)
+        except Exception:  # noqa
+            raw.add(op, "not-an-array", "output %r" % (out,), rep=rep, point=pname)
+            return
+        if arr.size != expect.size:
+            raw.add(op, "size", "output has %d entries, the output geometry has %d parameters"
+                    % (arr.size, expect.size), rep=rep, point=pname)
+            return
+        self.compared[0] += 1
+        res.traces += 1
+        if not close(arr, expect, tol):
+            raw.add(op, "values", "%s(%s given as %s) = %s, composed reference fun2par(f(par2fun(p))) = %s"
+                    % (op, pname, rep, arr[:6], expect[:6]), rep=rep, point=pname, impl=arr, ref=expect)
+
+    def run(self, rep, pname, expect, want, call, tol=1e-9, may_refuse=False):
+        res, raw, op = self.res, self.raw, self.op
+        res.transitions += 1
+        try:
+            out = call()
+        except Exception as e:  # noqa
+            res.outcomes.add("%s:%s:raise:%s" % (op[:3], rep, type(e).__name__))
+            if may_refuse:
+                res.refused += 1
+                return
+            raw.add(op + "-raises", type(e).__name__,
+                    "%s raised %r for %s given as %s although the reference value exists" % (op, e, pname, rep),
+                    rep=rep, point=pname)
+            return
+        res.outcomes.add("%s:%s:ok:%s" % (op[:3], rep, type(out).__name__))
+        self.judge(rep, out, expect, pname, want, tol)
+
+
+def _battery(res, raw, op, apply, extra_routes, gi, go, lgi, lgo, pts, refs_at, compared, full):
+    """One application `apply(x, **kw)` from the space of reference geometry `gi` (library object `lgi`) to that of
+    `go` (`lgo`), on every representation of every point:
+
+    vectors      par ndarray (+ extra routes), function values with is_par=False,
+                 CUQIarray par/fun carrying the input geometry itself,
+                 CUQIarray carrying a different-but-compatible geometry: the default geometry (CUQIarray(p), e.g. a draw
+                 of a prior defined without geometry), Continuous1D on another grid (parameters), Continuous1D/2D on
+                 another grid holding function values (with is_par=False),
+                 dtype facet: int64 (integer-valued points) and float32 as ndarray and as CUQIarray, python list;
+    collections  Samples with 1..3 columns x {own geometry float64 / int64 / float32 / list of columns,
+                 default geometry, other-grid geometry}.
+    Oracle: the composed dense reference value of the float64 point; CUQIarray in -> CUQIarray(parameters of the output
+    geometry) out, plain in -> plain out, Samples in -> Samples of the output geometry out.  float32 inputs are judged
+    with float32 accuracy (user code may compute in the precision it is given); a python list may be refused."""
+    from cuqi.array import CUQIarray
+    from cuqi.samples import Samples
+    R = _Runner(res, raw, op, lgo, compared)
+    og_par = M.other_grid_geometry((gi.n,))
+    og_fun = M.other_grid_geometry(gi.fshape)
+    i64, f32 = np.int64, np.float32
+
+    for (pname, p), expect in zip(pts, refs_at):
+        res.state("%s:pt:%s" % (op, pname) if op != "forward" else "pt:" + pname)
+        F = np.array(gi.p2f(p), dtype=float)
+        R.run("par", pname, expect, "ndarray", lambda: apply(p.copy()))
+        for rep, route in extra_routes:
+            R.run(rep, pname, expect, "ndarray", lambda: route(p))
+        R.run("fun", pname, expect, "ndarray", lambda: apply(F.copy(), is_par=False))
+        R.run("cuqi-par", pname, expect, "CUQIarray", lambda: apply(CUQIarray(p.copy(), is_par=True, geometry=lgi)))
+        R.run("cuqi-fun", pname, expect, "CUQIarray", lambda: apply(CUQIarray(F.copy(), is_par=False, geometry=lgi)))
+        R.run("cuqi-fun-flag", pname, expect, "CUQIarray",
+              lambda: apply(CUQIarray(F.copy(), is_par=False, geometry=lgi), is_par=False))
+        # -- geometry carried by the array: different but compatible
+        R.run("cuqi-par-default", pname, expect, "CUQIarray", lambda: apply(CUQIarray(p.copy())))
+        R.run("cuqi-par-othergrid", pname, expect, "CUQIarray",
+              lambda: apply(CUQIarray(p.copy(), is_par=True, geometry=og_par)))
+        R.run("cuqi-fun-othergrid", pname, expect, "CUQIarray",
+              lambda: apply(CUQIarray(F.copy(), is_par=False, geometry=og_fun), is_par=False))
+        # -- dtype of the vector
+        if _is_int(p):
+            R.run("par-int", pname, expect, "ndarray", lambda: apply(p.astype(i64)))
+            R.run("cuqi-par-int", pname, expect, "CUQIarray",
+                  lambda: apply(CUQIarray(p.astype(i64), is_par=True, geometry=lgi)))
+        R.run("par-float32", pname, expect, "ndarray", lambda: apply(p.astype(f32)), tol=F32_TOL)
+        R.run("cuqi-par-float32", pname, expect, "CUQIarray",
+              lambda: apply(CUQIarray(p.astype(f32), is_par=True, geometry=lgi)), tol=F32_TOL)
+        R.run("par-list", pname, expect, None, lambda: apply([float(v) for v in p]), may_refuse=True)
+
+    # ---- sample collections with 1, 2, 3 columns --------------------------------------------
+    ipts = [i for i, (_, p) in enumerate(pts) if _is_int(p)]
+    allpts = list(range(len(pts)))
+    for rep, geom, dtype in SAMPLE_VARIANTS:
+        sel = ipts if dtype == "int" else allpts
+        sgeom = {"own": lgi, "default": None, "other": og_par}[geom]
+        tol = F32_TOL if dtype == "float32" else 1e-9
+        for ncol in (1, 2, 3):
+            starts = list(range(0, len(sel), ncol))
+            if not full and rep != "samples":
+                # quick tier: the variants run every point through 3-column collections and the first point through a
+                # 1-column collection (the own-geometry float64 collection keeps all column counts)
+                starts = {1: starts[:1], 2: [], 3: starts}[ncol]
+            for start in starts:
+                idx = [sel[(start + c) % len(sel)] for c in range(ncol)]
+                cols = np.stack([pts[i][1] for i in idx], axis=1)
+                expect = np.stack([refs_at[i] for i in idx], axis=1)
+                if dtype == "int":
+                    data = cols.astype(i64)
+                elif dtype == "float32":
+                    data = cols.astype(f32)
+                elif dtype == "list":
+                    data = [cols[:, c].copy() for c in range(ncol)]
+                else:
+                    data = cols.copy()
+                res.transitions += 1
+                res.state("%s%s:%d" % ("" if op == "forward" else op + ":", rep, ncol))
+                try:
+                    out = apply(Samples(data, geometry=sgeom))
+                except Exception as e:  # noqa
+                    res.outcomes.add("%s:%s%d:raise:%s" % (op[:3], rep, ncol, type(e).__name__))
+                    if dtype == "list":
+                        res.refused += 1
+                        continue
+                    raw.add(op + "-raises", type(e).__name__,
+                            "%s raised %r for a sample collection (%s) with %d column(s)" % (op, e, rep, ncol), rep=rep)
+                    continue
+                res.evaluations += 1
+                res.outcomes.add("%s:%s%d:ok:%s" % (op[:3], rep, ncol, type(out).__name__))
+                if not isinstance(out, Samples):
+                    raw.add(op + "-wrapping", "type", "Samples in, %s out" % type(out).__name__, rep=rep)
+                    continue
+                if not _same_geometry(out.geometry, lgo):
+                    raw.add(op + "-wrapping", "geometry", "output samples carry %r instead of the geometry of the output "
+                            "space %r" % (out.geometry, lgo), rep=rep)
+                if getattr(out, "is_par", True) is not True:
+                    raw.add(op + "-wrapping", "is_par", "output samples not flagged as parameters", rep=rep)
+                try:
+                    S = np.asarray(out.samples, dtype=float)
+                except Exception:  # noqa
+                    raw.add(op, "not-an-array", "output samples %r" % (out.samples,), rep=rep)
+                    continue
+                if S.shape != expect.shape:
+                    raw.add(op, "size", "output samples have shape %s, expected %s" % (S.shape, expect.shape), rep=rep)
+                    continue
+                compared[0] += ncol
+                res.traces += ncol
+                if not close(S, expect, tol):
+                    raw.add(op, "values", "column-wise application to %d column(s) (%s) differs from the application to "
+                            "each column as a float64 vector (composed reference)" % (ncol, rep), rep=rep, impl=S, ref=expect)
+
+
 def _explore(res, cell):
     """Complete exploration of one cell on the real code; returns the raw failures."""
     import cuqi  # noqa
@@ -160,6 +371,7 @@ def _explore(res, cell):
 
     pts = [("e%d" % i, np.eye(n)[:, i].copy()) for i in range(n)]
     pts.append(("zero", np.zeros(n)))
+    pts.append(("igen", M.int_point(n, k)))
     for j in range(cell["npts"]):
         pts.append(("gen%d" % j, refs.dyadic_vec(n, k + 3 * j, scale=0.125)))
     refs_at = [ref(p) for _, p in pts]
@@ -167,63 +379,12 @@ def _explore(res, cell):
         raise AssertionError("harness: non-finite reference value %s" % cell)
     compared = [0]
 
-    def judge_forward(rep, out, expect, pname, want):
-        res.evaluations += 1
-        if want == "ndarray" and isinstance(out, (CUQIarray, Samples)):
-            raw.add("forward-wrapping", "type", "plain array in, %s out" % type(out).__name__, rep=rep, point=pname)
-        if want == "CUQIarray":
-            if type(out) is not CUQIarray:
-                raw.add("forward-wrapping", "type", "CUQIarray in, %s out" % type(out).__name__, rep=rep, point=pname)
-            else:
-                if not _same_geometry(out.geometry, rg):
-                    raw.add("forward-wrapping", "geometry", "output carries %r instead of the range geometry"
-                            % (out.geometry,), rep=rep, point=pname)
-                if out.is_par is not True:
-                    raw.add("forward-wrapping", "is_par", "output not flagged as parameters", rep=rep, point=pname)
-        try:
-            arr = _flat(out)
-        except Exception:  # noqa
-            raw.add("forward", "not-an-array", "output %r" % (out,), rep=rep, point=pname)
-            return
-        if arr.size != expect.size:
-            raw.add("forward", "size", "output has %d entries, the range geometry has %d parameters"
-                    % (arr.size, expect.size), rep=rep, point=pname)
-            return
-        compared[0] += 1
-        res.traces += 1
-        if not close(arr, expect, 1e-9):
-            raw.add("forward", "values", "forward(%s given as %s) = %s, composed reference fun2par(f(par2fun(p))) = %s"
-                    % (pname, rep, arr[:6], expect[:6]), rep=rep, point=pname, impl=arr, ref=expect)
-
-    def run_forward(rep, pname, expect, want, call):
-        res.transitions += 1
-        try:
-            out = call()
-        except Exception as e:  # noqa
-            res.outcomes.add("fwd:%s:raise:%s" % (rep, type(e).__name__))
-            raw.add("forward-raises", type(e).__name__,
-                    "forward raised %r for %s given as %s although the reference value exists" % (e, pname, rep),
-                    rep=rep, point=pname)
-            return
-        res.outcomes.add("fwd:%s:ok:%s" % (rep, type(out).__name__))
-        judge_forward(rep, out, expect, pname, want)
-
-    # ---- 1. forward in every single-vector representation -----------------------------------
-    for (pname, p), expect in zip(pts, refs_at):
-        res.state("pt:" + pname)
-        F = np.array(gd.p2f(p), dtype=float)
-        run_forward("par", pname, expect, "ndarray", lambda: model.forward(p.copy()))
-        run_forward("par-call", pname, expect, "ndarray", lambda: model(p.copy()))
-        run_forward("par-keyword", pname, expect, "ndarray", lambda: model.forward(x=p.copy()))
-        if mcls == "LinearModel":
-            run_forward("par-matmul", pname, expect, "ndarray", lambda: model @ p.copy())
-        run_forward("fun", pname, expect, "ndarray", lambda: model.forward(F.copy(), is_par=False))
-        run_forward("cuqi-par", pname, expect, "CUQIarray",
-                    lambda: model.forward(CUQIarray(p.copy(), is_par=True, geometry=dg)))
-        run_forward("cuqi-fun", pname, expect, "CUQIarray",
-                    lambda: model.forward(CUQIarray(F.copy(), is_par=False, geometry=dg)))
-        run_forward("cuqi-fun-flag", pname, expect, "CUQIarray",
-                    lambda: model.forward(CUQIarray(F.copy(), is_par=False, geometry=dg), is_par=False))
+    # ---- 1. forward in every single-vector representation, 2. sample collections ----------------
+    extra = [("par-call", lambda p: model(p.copy())), ("par-keyword", lambda p: model.forward(x=p.copy()))]
+    if mcls == "LinearModel":
+        extra.append(("par-matmul", lambda p: model @ p.copy()))
+    _battery(res, raw, "forward", lambda x, **kw: model.forward(x, **kw), extra, gd, gr, dg, rg, pts, refs_at, compared,
+             cell["allw"])
     res.outcomes.add("val:%s:%.6g" % (name, float(np.sum(refs_at[-1]))))
     # ---- 1b. arrays carrying an EQUAL but separately constructed domain geometry, after variable names were generated
     #          on the model's own geometry only (lazily created attributes must not make equal geometries unequal)
@@ -238,46 +399,26 @@ def _explore(res, cell):
             expect = refs_at[-1]
             F = np.array(gd.p2f(p), dtype=float)
             res.state("equal-geometry-copy")
-            run_forward("cuqi-par-equalgeom", pname, expect, "CUQIarray",
-                        lambda: model.forward(CUQIarray(p.copy(), is_par=True, geometry=dg2)))
-            run_forward("cuqi-fun-equalgeom", pname, expect, "CUQIarray",
-                        lambda: model.forward(CUQIarray(F.copy(), is_par=False, geometry=dg2)))
+            one = _Runner(res, raw, "forward", rg, compared)
+            one.run("cuqi-par-equalgeom", pname, expect, "CUQIarray",
+                    lambda: model.forward(CUQIarray(p.copy(), is_par=True, geometry=dg2)))
+            one.run("cuqi-fun-equalgeom", pname, expect, "CUQIarray",
+                    lambda: model.forward(CUQIarray(F.copy(), is_par=False, geometry=dg2)))
 
-    # ---- 2. sample collections with 1, 2, 3 columns ----------------------------------------
-    for ncol in (1, 2, 3):
-        for start in range(0, len(pts), ncol):
-            idx = [(start + c) % len(pts) for c in range(ncol)]
-            cols = np.stack([pts[i][1] for i in idx], axis=1)
-            expect = np.stack([refs_at[i] for i in idx], axis=1)
-            res.transitions += 1
-            res.state("samples:%d" % ncol)
-            rep = "samples"
-            try:
-                out = model.forward(Samples(cols.copy(), geometry=dg))
-            except Exception as e:  # noqa
-                res.outcomes.add("fwd:samples%d:raise:%s" % (ncol, type(e).__name__))
-                raw.add("forward-raises", type(e).__name__,
-                        "forward raised %r for a sample collection with %d column(s)" % (e, ncol), rep=rep)
-                continue
-            res.evaluations += 1
-            res.outcomes.add("fwd:samples%d:ok:%s" % (ncol, type(out).__name__))
-            if not isinstance(out, Samples):
-                raw.add("forward-wrapping", "type", "Samples in, %s out" % type(out).__name__, rep=rep)
-                continue
-            if not _same_geometry(out.geometry, rg):
-                raw.add("forward-wrapping", "geometry", "output samples carry %r instead of the range geometry"
-                        % (out.geometry,), rep=rep)
-            if getattr(out, "is_par", True) is not True:
-                raw.add("forward-wrapping", "is_par", "output samples not flagged as parameters", rep=rep)
-            S = np.asarray(out.samples, dtype=float)
-            if S.shape != expect.shape:
-                raw.add("forward", "size", "output samples have shape %s, expected %s" % (S.shape, expect.shape), rep=rep)
-                continue
-            compared[0] += ncol
-            res.traces += ncol
-            if not close(S, expect, 1e-9):
-                raw.add("forward", "values", "column-wise application to %d column(s) differs from the composed "
-                        "reference" % ncol, rep=rep, impl=S, ref=expect)
+    # ---- 2b. the adjoint of a linear model is an application range -> domain: same representations ----------------
+    if hasattr(model, "adjoint") and hasattr(b, "fT"):
+        def aref(y):
+            return _flat(gd.f2p(b.fT(gr.p2f(y))))
+        ypts = [("e%d" % i, np.eye(m)[:, i].copy()) for i in range(m)]
+        ypts.append(("zero", np.zeros(m)))
+        ypts.append(("igen", M.int_point(m, k + 1)))
+        for j in range(cell["npts"]):
+            ypts.append(("gen%d" % j, refs.dyadic_vec(m, k + 1 + 3 * j, scale=0.125)))
+        arefs = [aref(y) for _, y in ypts]
+        if not all(np.all(np.isfinite(r)) for r in arefs):
+            raise AssertionError("harness: non-finite adjoint reference value %s" % cell)
+        _battery(res, raw, "adjoint", lambda y, **kw: model.adjoint(y, **kw), [], gr, gd, rg, dg, ypts, arefs, compared,
+                 cell["allw"])
 
     # ---- 3. gradient = J^T direction, or refused ----------------------------------------------
     _check_gradient(res, raw, cell, model, gd, gr, dg, rg, pts, ref)
@@ -323,6 +464,38 @@ def _explore(res, cell):
     return raw
 
 
+def _grad_arg(rep, vec, fvec, own, og_par, og_fun):
+    """(object, is_par flag) of one representation of a gradient argument, or None when the representation does not
+    exist for this vector.  Arrays carrying the model's own geometry say themselves what they hold (flag True as
+    documented default); everything else is described by the flag."""
+    from cuqi.array import CUQIarray
+    if rep == "par":
+        return vec.copy(), True
+    if rep == "fun":
+        return fvec.copy(), False
+    if rep == "cuqi-par":
+        return CUQIarray(vec.copy(), is_par=True, geometry=own), True
+    if rep == "cuqi-fun":
+        return CUQIarray(fvec.copy(), is_par=False, geometry=own), True
+    if rep == "cuqi-par-default":
+        return CUQIarray(vec.copy()), True
+    if rep == "cuqi-par-othergrid":
+        return CUQIarray(vec.copy(), is_par=True, geometry=og_par), True
+    if rep == "cuqi-fun-othergrid":
+        return CUQIarray(fvec.copy(), is_par=False, geometry=og_fun), False
+    if rep == "par-int":
+        return (vec.astype(np.int64), True) if _is_int(vec) else None
+    if rep == "par-float32":
+        return vec.astype(np.float32), True
+    raise ValueError(rep)
+
+
+GRAD_BASE = {"cuqi-par-default": "par", "cuqi-par-othergrid": "par", "cuqi-fun-othergrid": "fun", "par-int": "par",
+             "par-float32": "par"}
+GRAD_EXTRA_PAIRS = ([(f, "par") for f in FOREIGN_REPS] + [("par", f) for f in FOREIGN_REPS]
+                    + [(f, f) for f in FOREIGN_REPS] + [("par-int", "par-int"), ("par-float32", "par-float32")])
+
+
 def _check_gradient(res, raw, cell, model, gd, gr, dg, rg, pts, ref):
     from cuqi.array import CUQIarray
     n, m, k = gd.n, gr.n, cell["cat"]
@@ -332,63 +505,73 @@ def _check_gradient(res, raw, cell, model, gd, gr, dg, rg, pts, ref):
         wpts = [pts[-1], pts[min(1, n - 1)]]
     dirs = [("d%d" % j, np.eye(m)[:, j].copy()) for j in range(m)]
     dirs.append(("dgen", refs.dyadic_vec(m, k + 2, scale=0.25)))
+    ogd_par, ogd_fun = M.other_grid_geometry((n,)), M.other_grid_geometry(gd.fshape)
+    ogr_par, ogr_fun = M.other_grid_geometry((m,)), M.other_grid_geometry(gr.fshape)
+    main_pairs = [(a, b_) for a in GRAD_REPS for b_ in GRAD_REPS]
     for wname, w in wpts:
         Wf = np.array(gd.p2f(w), dtype=float)
         J = {}
+        gtype = {}
 
         def jac(h):
             if h not in J:
                 J[h] = refs.richardson_jac(ref, w, h=h)
             return J[h]
-        for wrep in GRAD_REPS:
-            for drep in GRAD_REPS:
-                res.state("grad:%s:%s" % (wrep, drep))
-                for dname, d in dirs:
-                    Df = np.array(gr.p2f(d), dtype=float)
-                    if drep == "par":
-                        dd, dflag = d.copy(), True
-                    elif drep == "fun":
-                        dd, dflag = Df.copy(), False
-                    elif drep == "cuqi-par":
-                        dd, dflag = CUQIarray(d.copy(), is_par=True, geometry=rg), True
-                    else:
-                        dd, dflag = CUQIarray(Df.copy(), is_par=False, geometry=rg), True
-                    if wrep == "par":
-                        ww, wflag = w.copy(), True
-                    elif wrep == "fun":
-                        ww, wflag = Wf.copy(), False
-                    elif wrep == "cuqi-par":
-                        ww, wflag = CUQIarray(w.copy(), is_par=True, geometry=dg), True
-                    else:
-                        ww, wflag = CUQIarray(Wf.copy(), is_par=False, geometry=dg), True
-                    res.transitions += 1
-                    try:
-                        g = model.gradient(dd, ww, is_direction_par=dflag, is_wrt_par=wflag)
-                        g = _flat(g)
-                    except Exception as e:  # noqa  refusal is always allowed
-                        res.refused += 1
-                        res.count("gradient-refused")
-                        res.outcomes.add("grad:%s:%s:refused:%s" % (wrep, drep, type(e).__name__))
-                        continue
-                    res.count("gradient-computed")
-                    res.evaluations += 1
-                    res.outcomes.add("grad:%s:%s:ok" % (wrep, drep))
-                    if g.size != n:
-                        raw.add("gradient", "size", "gradient has %d entries, the domain has %d parameters" % (g.size, n),
-                                wrep=wrep, drep=drep, wrt=wname, direction=dname)
-                        continue
-                    res.traces += 1
-                    e1 = jac(1e-3).T @ d
-                    if close(g, e1, 1e-5):
-                        continue
-                    e2 = jac(4e-4).T @ d
-                    if close(g, e2, 1e-5):
-                        continue
-                    raw.add("gradient", "values",
-                            "gradient(direction %s given as %s, wrt %s given as %s) = %s but J^T direction = %s (Richardson "
-                            "finite differences of the composed parameter-to-output map, two step sizes)"
-                            % (dname, drep, wname, wrep, g[:6], e2[:6]),
-                            wrep=wrep, drep=drep, wrt=w, direction=d, impl=g, ref=e2)
+        # the extra representation pairs (geometry carried by the array, dtype) at the generic linearisation point;
+        # the integer pair wherever the linearisation point is integer valued
+        pairs = [(a, b_, False) for a, b_ in main_pairs]
+        for a, b_ in GRAD_EXTRA_PAIRS:
+            if wname == pts[-1][0] or (a == "par-int" and _is_int(w)):
+                pairs.append((a, b_, True))
+        for wrep, drep, extra in pairs:
+            res.state("grad:%s:%s" % (wrep, drep))
+            for dname, d in dirs:
+                Df = np.array(gr.p2f(d), dtype=float)
+                da = _grad_arg(drep, d, Df, rg, ogr_par, ogr_fun)
+                wa = _grad_arg(wrep, w, Wf, dg, ogd_par, ogd_fun)
+                if da is None or wa is None:
+                    continue
+                (dd, dflag), (ww, wflag) = da, wa
+                res.transitions += 1
+                try:
+                    gout = model.gradient(dd, ww, is_direction_par=dflag, is_wrt_par=wflag)
+                    g = _flat(gout)
+                except Exception as e:  # noqa  refusal is always allowed
+                    res.refused += 1
+                    res.count("gradient-refused")
+                    res.outcomes.add("grad:%s:%s:refused:%s" % (wrep, drep, type(e).__name__))
+                    continue
+                res.count("gradient-computed")
+                res.evaluations += 1
+                res.outcomes.add("grad:%s:%s:ok" % (wrep, drep))
+                op, tag = "gradient", {"wrep": wrep, "drep": drep}
+                # the statement is silent about the wrapping of a gradient; only demanded: the geometry object carried
+                # by an array-typed direction does not change the type of the result
+                if wrep == "par" and drep in ("cuqi-par", "cuqi-fun"):
+                    gtype[(drep, dname)] = type(gout)
+                if extra and wrep == "par" and drep in FOREIGN_REPS:
+                    own_t = gtype.get(("cuqi-fun" if "fun" in drep else "cuqi-par", dname))
+                    if own_t is not None and type(gout) is not own_t:
+                        raw.add("gradient-wrapping", "type", "direction as array with its own geometry -> %s, as array with a "
+                                "different-but-compatible geometry (%s) -> %s" % (own_t.__name__, drep, type(gout).__name__),
+                                rep="direction=%s" % drep)
+                if g.size != n:
+                    raw.add(op, "size", "gradient has %d entries, the domain has %d parameters" % (g.size, n),
+                            wrt=wname, direction=dname, **tag)
+                    continue
+                res.traces += 1
+                tol = F32_TOL if "float32" in wrep else 1e-5
+                e1 = jac(1e-3).T @ d
+                if close(g, e1, tol):
+                    continue
+                e2 = jac(4e-4).T @ d
+                if close(g, e2, tol):
+                    continue
+                raw.add(op, "values",
+                        "gradient(direction %s given as %s, wrt %s given as %s) = %s but J^T direction = %s (Richardson "
+                        "finite differences of the composed parameter-to-output map, two step sizes)"
+                        % (dname, drep, wname, wrep, g[:6], e2[:6]),
+                        wrt=w, direction=d, impl=g, ref=e2, **tag)
 
 
 def _check_rename(res, raw, cell, model, pts, refs_at, n, m):
@@ -534,23 +717,36 @@ def _emit(res, cell, raw):
     for (comp, op, kind, geo, mlab), fs in sorted(groups.items()):
         if op == "gradient":
             pairs = {(f["wrep"], f["drep"]) for f in fs}
-            wset, dset = {p[0] for p in pairs}, {p[1] for p in pairs}
-            if pairs == {(a, b) for a in wset for b in dset}:
+            main = {p for p in pairs if p[0] in GRAD_REPS and p[1] in GRAD_REPS}
+            wset, dset = {p[0] for p in main}, {p[1] for p in main}
+            if main == {(a, b) for a in wset for b in dset}:
                 lab = lambda s: "*" if len(s) == 4 else "+".join(sorted(s))
-                tags = {p: "wrt=%s,direction=%s" % (lab(wset), lab(dset)) for p in pairs}
+                tags = {p: "wrt=%s,direction=%s" % (lab(wset), lab(dset)) for p in main}
             else:
-                tags = {p: "wrt=%s,direction=%s" % p for p in pairs}
+                tags = {p: "wrt=%s,direction=%s" % p for p in main}
+            # a pair of the geometry-carried / dtype facet gets a signature of its own only when the same call with
+            # the plain analogue of both representations (parameter vector / flagged function values) is right
+            twin = {"cuqi-par-default": "cuqi-par-othergrid", "cuqi-par-othergrid": "cuqi-par-default"}
+            for p in pairs - main:
+                base = (GRAD_BASE.get(p[0], p[0]), GRAD_BASE.get(p[1], p[1]))
+                if base in main:
+                    tags[p] = tags[base]
+                elif (twin.get(p[0], p[0]), twin.get(p[1], p[1])) in pairs - {p}:   # both other-geometry variants fail
+                    tags[p] = "wrt=%s,direction=%s" % tuple("cuqi-par-othergeom" if r in twin else r for r in p)
+                else:
+                    tags[p] = "wrt=%s,direction=%s" % p
             for f in fs:
                 res.fail("C12|%s|gradient|%s,model=%s,%s,%s" % (comp, kind, mlab, tags[(f["wrep"], f["drep"])], geo),
                          f["message"], **f["detail"])
         else:
-            reps = _collapse({f["rep"] for f in fs}, [("cuqi-*", CUQI_REPS), ("cuqi-fun*", CUQI_REPS[1:]),
-                                                      ("par-*", PAR_REPS)])
+            # a representation of the geometry-carried / dtype facets is named in the signature only when its plain
+            # analogue (same container, own geometry, float64) does not fail the same way
+            failing = {f["rep"] for f in fs}
+            eff = {r: (REP_BASE[r] if (r in REP_BASE and REP_BASE[r] in failing) else r) for r in failing}
+            reps = _collapse(set(eff.values()), REP_GROUPS)
             for f in fs:
-                r = f["rep"]
-                lab = "cuqi-*" if (r in CUQI_REPS and "cuqi-*" in reps) else \
-                    "cuqi-fun*" if (r in CUQI_REPS[1:] and "cuqi-fun*" in reps) else \
-                    "par-*" if (r in PAR_REPS and "par-*" in reps) else r
+                r = eff[f["rep"]]
+                lab = next((label for label, members in REP_GROUPS if r in members and label in reps), r)
                 res.fail("C12|%s|%s|%s,rep=%s,%s" % (comp, op, kind, lab, geo), f["message"], **f["detail"])
 
 
